@@ -118,7 +118,7 @@ def run(ck):
     for name, gen in cases.ALL.items():
         params = inspect.signature(gen).parameters
         sweeps = [('carrier', c) for c in ('ndarray', 'series', 'masked_nan', 'list_nan')] if 'carrier' in params else []
-        sweeps += [('tcarrier', c) for c in ('series', 'dtindex', 'epoch_array', 'dt64_s')] if 'tcarrier' in params else []
+        sweeps += [('tcarrier', c) for c in ('series', 'dtindex', 'epoch_array', 'dt64_s', 'series_tz', 'dtindex_tz', 'epoch_series')] if 'tcarrier' in params else []
         for param, value in sweeps:
             seen = {}
             for case, spec in gen('quick', **{param: value}):
